@@ -439,6 +439,12 @@ func (t *trTranslator) addDispatchFuncs() {
 				t.funcs[m] = f
 				t.byUnit[u] = append(t.byUnit[u], f)
 				trDispatchOf[f] = d
+				if am := u.agreeMod(d.impls[0].leanName); am != u.mod {
+					if u.agree == nil {
+						u.agree = map[string]string{}
+					}
+					u.agree[f.leanName] = am // its agreement theorem lives with those of the methods it dispatches to
+				}
 			}
 		}
 	}
